@@ -131,9 +131,49 @@ func (certCache *Cache) SetOptions(opts CacheOptions) {
 		panic("cache must be initialized with a GetConfigForCert callback")
 	}
 
+	// the options are changed while holding the cache lock so that a lowered
+	// capacity takes effect atomically with the change: an insertion into a full
+	// cache only ever evicts one certificate, so a cache that is over its new
+	// capacity would otherwise stay over it indefinitely
+	certCache.mu.Lock()
 	certCache.optionsMu.Lock()
 	certCache.options = opts
 	certCache.optionsMu.Unlock()
+	if opts.Capacity > 0 {
+		for excess := len(certCache.cache) - opts.Capacity; excess > 0; excess-- {
+			certCache.evictRandomCertificate()
+		}
+	}
+	certCache.mu.Unlock()
+}
+
+// evictRandomCertificate removes one randomly-chosen certificate
+// from the cache, if there is any.
+//
+// This function is NOT safe for concurrent use; callers
+// MUST first acquire a write lock on certCache.mu.
+func (certCache *Cache) evictRandomCertificate() {
+	cacheSize := len(certCache.cache)
+	if cacheSize == 0 {
+		return
+	}
+	// Go maps are "nondeterministic" but not actually random,
+	// so although we could just chop off the "front" of the
+	// map with less code, that is a heavily skewed eviction
+	// strategy; generating random numbers is cheap and
+	// ensures a much better distribution.
+	rnd := weakrand.Intn(cacheSize)
+	i := 0
+	for _, randomCert := range certCache.cache {
+		if i == rnd {
+			certCache.logger.Debug("evicting random certificate",
+				zap.Strings("removing_subjects", randomCert.Names),
+				zap.String("removing_hash", randomCert.hash))
+			certCache.removeCertificate(randomCert)
+			break
+		}
+		i++
+	}
 }
 
 // Stop stops the maintenance goroutine for
